@@ -17,20 +17,24 @@ type vLink struct {
 	len   float64
 }
 
-// vStair builds a link from p to q (same Y) that goes up by h, across, and
+// vStair builds a link from p to q (same Y, or same X) that goes up by h, across, and
 // down again: length = |q.X-p.X| + 2h exactly.
 func vStair(p, q geom.Point, h float64) geom.LineString {
+	if p.X == q.X {
+		// a vertical link steps sideways instead
+		return geom.LineString{p, {X: p.X + h, Y: p.Y}, {X: q.X + h, Y: q.Y}, q}
+	}
 	return geom.LineString{p, {X: p.X, Y: p.Y + h}, {X: q.X, Y: q.Y + h}, q}
 }
 
 var vSpeeds = []float64{1, 2, 4, 8}
 
 // vNet builds a network over concrete node positions with the given links.
-func vNet(m MinimizeOption, pos []geom.Point, pairs [][2]int) (*Network, []*vLink) {
+func vNet(m MinimizeOption, pos []geom.Point, pairs [][2]int, w, sc int) (*Network, []*vLink) {
 	net := NewNetwork(m)
 	var links []*vLink
 	for _, pr := range pairs {
-		h := vGrid(3, 0)
+		h := vGrid(w, sc)
 		vAssume(h >= 0)
 		sp := vSpeeds[vChoose(vBound(2, 4))]
 		p, q := pos[pr[0]], pos[pr[1]]
@@ -82,7 +86,11 @@ func vSimplePaths(n int, links []*vLink, s, t int) [][]int {
 }
 
 func vCheckRoute(m MinimizeOption, pos []geom.Point, pairs [][2]int, s, t int) {
-	net, links := vNet(m, pos, pairs)
+	vCheckRouteGrid(m, pos, pairs, s, t, 3, 0)
+}
+
+func vCheckRouteGrid(m MinimizeOption, pos []geom.Point, pairs [][2]int, s, t int, w, sc int) {
+	net, links := vNet(m, pos, pairs, w, sc)
 	var route geom.MultiLineString
 	var dist, tm float64
 	if vCatch(func() { route, dist, tm, _, _ = net.ShortestRoute(pos[s], pos[t]) }) {
@@ -160,6 +168,22 @@ func VH_C19_chain() {
 // triangle 0-1-2 plus the direct link 0-2: one hop against two hops
 func VH_C19_triangle() {
 	vCheckRoute(vOpt(), vNodePos[:3], [][2]int{{0, 1}, {1, 2}, {0, 2}}, 0, 2)
+	vReach("end")
+}
+
+// a rectangle S-M-N-T with the direct link S-T: the alternative to the direct
+// link first moves away from the target, so an over-estimating heuristic makes
+// A* settle for the direct link. Links are added fastest-candidate first or last.
+func VH_C19_detour() {
+	// 7-24-25 triangles: every straight-line distance the heuristic computes is
+	// an integer, so the whole search stays in the exact domain
+	pos := []geom.Point{{X: 0, Y: 0}, {X: 24, Y: 0}, {X: 0, Y: 7}, {X: 24, Y: 7}}
+	pairs := [][2]int{{2, 3}, {0, 2}, {3, 1}, {0, 1}}
+	if vChoose(2) == 1 {
+		pairs = [][2]int{{0, 1}, {3, 1}, {0, 2}, {2, 3}}
+	}
+	// riser heights in half units (0 .. 3.5): still exact
+	vCheckRouteGrid(vOpt(), pos, pairs, 0, 1, 4, 1)
 	vReach("end")
 }
 
